@@ -52,15 +52,30 @@ class Connection:
         return self._process_not_unique(previous)
     else:
       self._gfa = gfa
-      try:
-        self._initialize_references()
-      except Exception:
-        # the line cannot be connected: the references created so far are
-        # removed, so that the Gfa is left as it was
-        self._undo_initialize_references()
-        raise
+      self._initialize_references_or_undo()
       self._gfa._register_line(self)
       return None
+
+  def _initialize_references_or_undo(self):
+    # if the line cannot be connected, the references created so far are
+    # removed, and the placeholders of unknown type which were given a type
+    # are restored, so that the Gfa is left as it was
+    gfa = self._gfa
+    outermost = getattr(gfa, "_refined_placeholders", None) is None
+    if outermost:
+      gfa._refined_placeholders = []
+    try:
+      self._initialize_references()
+    except Exception:
+      self._undo_initialize_references()
+      if outermost:
+        for typed, unknown in reversed(gfa._refined_placeholders):
+          if typed.is_connected():
+            unknown._substitute_virtual_line(typed)
+      raise
+    finally:
+      if outermost:
+        gfa._refined_placeholders = None
 
   def _undo_initialize_references(self):
     placeholders = []
